@@ -21,6 +21,7 @@ import (
 	"fmt"
 	"io"
 	"net/http"
+	"net/http/httptest"
 	"sort"
 	"strings"
 	"sync"
@@ -181,12 +182,16 @@ func (t *c12Rec) Do(req *http.Request) (*http.Response, error) {
 	t.seq = append(t.seq, req.Method+" "+req.URL.Scheme+"://"+req.URL.Host)
 	status, body := t.answer(req.Method, req.URL.Scheme+"://"+req.URL.Host)
 	t.mu.Unlock()
+	rep := "1"
+	if status == 2002 { // 200 confirming two replicas
+		status, rep = 200, "2"
+	}
 	if status == 0 {
 		return nil, errors.New("connection refused (verif)")
 	}
 	h := http.Header{}
 	if status == 200 && req.Method == "PUT" {
-		h.Set(XKeepReplicasStored, "1")
+		h.Set(XKeepReplicasStored, rep)
 	}
 	var rb io.ReadCloser = io.NopCloser(bytes.NewReader(body))
 	if req.Method == "HEAD" {
@@ -823,6 +828,648 @@ func TestVerifC12(t *testing.T) {
 			run.Feature(fmt.Sprintf("%s,%s,ties=%v,%s,%s,%s,hints=%s,%s", nb, uuidClass, ties, ro, c.Load, c.ReadVia, strings.Join(hk, "+"), strings.SplitN(c.Change, ":", 2)[0]))
 		}
 		if i < 4 {
+			run.Sample(c)
+		}
+	})
+	c12SmallWrites(run)
+	c12Lazy(run)
+}
+
+// ================================================================ small service sets: write order
+//
+// Stream "small-writes": 1-3 writable services and Want_replicas >= their
+// number (the case in which "every server gets an upload anyway" looks
+// plausible). Whenever the client uploads one server at a time (a non-disk
+// service among the writable ones, roots given through SetServiceRoots or
+// KeepServiceURIs) the arrival order is exact, and it stops early when a server
+// confirms two replicas; judged: every round of requests is a prefix of the
+// reference order (27-character uuids), is a prefix of the read order observed
+// on the same client, and is the same for three independently built clients.
+
+type c12wCase struct {
+	Svcs     []c12Svc `json:"svcs"`
+	Mode     string   `json:"mode"`   // json | roots | uris
+	Answer   string   `json:"answer"` // 403 | 500 | rep1 | rep2
+	Wanted   int      `json:"wanted"`
+	Retries  int      `json:"retries"`
+	DataSeed uint64   `json:"data_seed"`
+	Size     int      `json:"size"`
+	Hash     string   `json:"hash"`
+	API      string   `json:"api"`
+}
+
+func c12URIUUID(i int) string { return fmt.Sprintf("00000-bi6l4-%015d", i) }
+
+// c12wClient builds a client for the case; order = listing/insertion order.
+// Returns the client and url -> uuid.
+func c12wClient(c *c12wCase, order []int, rec *c12Rec) (*KeepClient, map[string]string, error) {
+	kc := &KeepClient{
+		Arvados:       &arvadosclient.ArvadosClient{ApiToken: "veriftoken", Client: http.DefaultClient},
+		Want_replicas: c.Wanted,
+		Retries:       c.Retries,
+		HTTPClient:    rec,
+		RequestID:     "c12w",
+	}
+	byURL := map[string]string{}
+	url := func(i int) string { return fmt.Sprintf("http://c12w-s%d.invalid:25107", i) }
+	switch c.Mode {
+	case "uris":
+		// lazily discovered from KeepServiceURIs: the uuids are synthetic
+		// and follow the position in the list, so the list order is fixed
+		for i := range c.Svcs {
+			kc.Arvados.KeepServiceURIs = append(kc.Arvados.KeepServiceURIs, url(i))
+			byURL[url(i)] = c12URIUUID(i)
+		}
+		return kc, byURL, nil
+	case "roots":
+		locals, writables := map[string]string{}, map[string]string{}
+		for _, i := range order {
+			s := c.Svcs[i]
+			locals[s.UUID] = url(i)
+			byURL[url(i)] = s.UUID
+			if !s.RO {
+				writables[s.UUID] = url(i)
+			}
+		}
+		kc.SetServiceRoots(locals, writables, nil)
+		return kc, byURL, nil
+	}
+	type item struct {
+		UUID string `json:"uuid"`
+		Host string `json:"service_host"`
+		Port int    `json:"service_port"`
+		SSL  bool   `json:"service_ssl_flag"`
+		Type string `json:"service_type"`
+		RO   bool   `json:"read_only"`
+	}
+	var items []item
+	for _, i := range order {
+		s := c.Svcs[i]
+		items = append(items, item{UUID: s.UUID, Host: fmt.Sprintf("c12w-s%d.invalid", i), Port: 25107, Type: s.Type, RO: s.RO})
+		byURL[url(i)] = s.UUID
+	}
+	b, _ := json.Marshal(map[string]interface{}{"items": items})
+	return kc, byURL, kc.LoadKeepServicesFromJSON(string(b))
+}
+
+func c12SmallWrites(run *verifkit.Run) {
+	const alnum = "0123456789abcdefghijklmnopqrstuvwxyz"
+	run.Cases("small-writes", run.N(6000, 120000), func(i int, rng *verifkit.Rand) {
+		c := &c12wCase{Mode: rng.PickStr("json", "json", "roots", "uris"), Answer: rng.PickStr("403", "500", "rep1", "rep2", "rep2"), API: rng.PickStr("PutB", "PutHB")}
+		nW := rng.PickInt(1, 2, 2, 2, 3, 3)
+		class := rng.PickStr("all27", "all27", "all27", "non27", "mixed")
+		if c.Mode == "uris" {
+			class = "all27"
+		}
+		used := map[string]bool{}
+		typeMode := rng.PickStr("proxy", "proxy", "mixed", "disk")
+		nRO := 0
+		if c.Mode != "uris" && rng.Chance(1, 4) {
+			nRO = 1
+		}
+		for s := 0; s < nW+nRO; s++ {
+			var u string
+			for {
+				if class == "all27" || (class == "mixed" && rng.Bool()) {
+					u = rng.String(5, alnum) + "-bi6l4-" + rng.String(15, alnum)
+				} else {
+					l := rng.PickInt(5, 15, 26, 28, 40, rng.Range(1, 45))
+					if l == 27 {
+						l = 26
+					}
+					u = rng.String(l, alnum+"-")
+				}
+				if !used[u] {
+					used[u] = true
+					break
+				}
+			}
+			sv := c12Svc{UUID: u, Type: "proxy"}
+			switch typeMode {
+			case "disk":
+				sv.Type = "disk"
+			case "mixed":
+				sv.Type = rng.PickStr("disk", "proxy", "gateway:x")
+			}
+			c.Svcs = append(c.Svcs, sv)
+		}
+		if nRO == 1 {
+			c.Svcs[rng.Intn(len(c.Svcs))].RO = true
+		}
+		if c.Mode == "uris" {
+			for k := range c.Svcs {
+				c.Svcs[k].UUID = c12URIUUID(k)
+				c.Svcs[k].RO = false
+			}
+			nW = len(c.Svcs)
+		}
+		var writable, all []string
+		for _, s := range c.Svcs {
+			all = append(all, s.UUID)
+			if !s.RO {
+				writable = append(writable, s.UUID)
+			}
+		}
+		nW = len(writable)
+		c.Wanted = nW + rng.PickInt(0, 0, 0, 1)
+		if rng.Chance(1, 8) && nW > 1 {
+			c.Wanted = nW - 1 // contrast: fewer wanted than services
+		}
+		if c.Answer == "500" {
+			c.Retries = rng.Range(1, 2)
+		}
+		c.Size = rng.Range(1, 64)
+		c.DataSeed = rng.Uint64()
+		data := verifkit.NewRand(c.DataSeed).Bytes(c.Size)
+		c.Hash = verifkit.MD5Hex(data)
+		run.Input(c, false)
+
+		// uploads are one at a time unless every writable service is a
+		// disk listed through the keep_services records
+		sequential := c.Mode != "json" || c.Wanted == 1
+		if c.Mode == "json" {
+			for _, s := range c.Svcs {
+				if !s.RO && s.Type != "disk" {
+					sequential = true
+				}
+			}
+		}
+		all27 := len(c12Only27(all)) == len(all)
+		uuidClass := "all27"
+		if !all27 {
+			uuidClass = "non27-or-mixed"
+		}
+		bad := func(sig, detail string) {
+			run.Violation(sig, fmt.Sprintf("%s\nblock %s, mode %s, answer %s, wanted %d, retries %d", detail, c.Hash, c.Mode, c.Answer, c.Wanted, c.Retries), c)
+		}
+
+		rec := &c12Rec{}
+		rec.answer = func(method, url string) (int, []byte) {
+			if method != "PUT" {
+				return 404, []byte("Not found\n")
+			}
+			switch c.Answer {
+			case "500":
+				return 500, []byte("fail\n")
+			case "rep1":
+				return 200, []byte(fmt.Sprintf("%s+%d\n", c.Hash, c.Size))
+			case "rep2":
+				return 2002, []byte(fmt.Sprintf("%s+%d\n", c.Hash, c.Size))
+			}
+			return 403, []byte("Forbidden\n")
+		}
+		var seqs [][]string
+		var readOrder []string
+		for rep := 0; rep < 3; rep++ {
+			order := c12Identity(len(c.Svcs))
+			if rep == 1 {
+				order = c12Reverse(len(c.Svcs))
+			} else if rep == 2 {
+				order = rng.Perm(len(c.Svcs))
+			}
+			kc, byURL, err := c12wClient(c, order, rec)
+			if err != nil {
+				run.Inconclusive("C12: cannot load services: " + err.Error())
+				return
+			}
+			rec.take()
+			if c.API == "PutB" {
+				kc.PutB(data)
+			} else {
+				kc.PutHB(c.Hash, data)
+			}
+			var seq []string
+			for _, s := range rec.take() {
+				f := strings.SplitN(s, " ", 2)
+				u, ok := byURL[f[1]]
+				if !ok || f[0] != "PUT" {
+					bad("C12:W:request-to-host-outside-service-set", fmt.Sprintf("write produced request %q", s))
+					return
+				}
+				seq = append(seq, u)
+			}
+			seqs = append(seqs, seq)
+			if rep == 0 {
+				// the read order seen by the very same client
+				r, _, _, _ := kc.Get(fmt.Sprintf("%s+%d", c.Hash, c.Size))
+				if r != nil {
+					r.Close()
+				}
+				for _, s := range rec.take() {
+					f := strings.SplitN(s, " ", 2)
+					if u, ok := byURL[f[1]]; ok {
+						readOrder = append(readOrder, u)
+					}
+				}
+			}
+		}
+		run.Count("small_write_cases", 1)
+		if !sequential {
+			run.Count("small_write_cases_concurrent_uploads(order not observable)", 1)
+			run.Trivial()
+			return
+		}
+		wset := map[string]bool{}
+		for _, u := range writable {
+			wset[u] = true
+		}
+		readW := c12Restrict(readOrder, wset)
+		// split into rounds: a round ends when a service would repeat
+		rounds := func(seq []string) [][]string {
+			var out [][]string
+			var cur []string
+			seen := map[string]bool{}
+			for _, u := range seq {
+				if seen[u] {
+					out = append(out, cur)
+					cur, seen = nil, map[string]bool{}
+				}
+				seen[u] = true
+				cur = append(cur, u)
+			}
+			if len(cur) > 0 {
+				out = append(out, cur)
+			}
+			return out
+		}
+		for rep, seq := range seqs {
+			for _, round := range rounds(seq) {
+				run.Eval(1)
+				run.Count("small_write_rounds_judged", 1)
+				for _, u := range round {
+					if !wset[u] {
+						bad("C12:W:small-set:write-order-not-a-permutation", fmt.Sprintf("request to %s, which is not a writable service; sequence %v", u, seq))
+						return
+					}
+				}
+				// reference: non-increasing weights, and nothing skipped
+				prevW := ""
+				minW := ""
+				inRound := map[string]bool{}
+				for k, u := range round {
+					inRound[u] = true
+					w, ok := c12Weight(c.Hash, u)
+					if !ok {
+						continue
+					}
+					if k > 0 && prevW != "" && w > prevW {
+						bad("C12:W:small-set:write-order-differs-from-reference:"+c.Mode, fmt.Sprintf("client %d asked %v; reference order of the writable services %v", rep, round, c12RefOrder(c.Hash, c12Only27(writable))))
+						return
+					}
+					prevW = w
+					if minW == "" || w < minW {
+						minW = w
+					}
+				}
+				if all27 {
+					for _, u := range writable {
+						if w, _ := c12Weight(c.Hash, u); !inRound[u] && w > minW {
+							bad("C12:W:small-set:first-contacted-server-not-first-in-reference-order:"+c.Mode, fmt.Sprintf("client %d asked %v and skipped %s, which ranks higher; reference order of the writable services %v", rep, round, u, c12RefOrder(c.Hash, writable)))
+							return
+						}
+					}
+				}
+				// readers and writers share the order
+				if len(readW) == len(writable) && len(round) <= len(readW) && !c12SameModuloTies(c.Hash, round, readW[:len(round)]) {
+					bad("C12:RW:small-set:write-order-is-not-a-prefix-of-read-order:"+uuidClass+":"+c.Mode, fmt.Sprintf("client %d wrote to %v; the same client reads in the order %v", rep, round, readW))
+					return
+				}
+			}
+			if rep > 0 {
+				run.Eval(1)
+				if !c12SameModuloTies(c.Hash, seq, seqs[0]) {
+					bad("C12:D:small-set:write-order-not-deterministic:"+uuidClass+":"+c.Mode, fmt.Sprintf("the same write by independently built clients: %v vs %v", seqs[0], seq))
+					return
+				}
+			}
+		}
+		if len(seqs[0]) < nW {
+			run.Count("small_write_cases_stopped_early", 1)
+		}
+		if len(seqs[0]) > nW {
+			run.Count("small_write_cases_with_retry_rounds", 1)
+		}
+		if nW == 1 {
+			run.Trivial()
+		} else {
+			run.Feature(fmt.Sprintf("small-writes,w%d,ro%d,%s,%s,types=%s,%s,wanted%+d,retr%d", nW, len(all)-nW, uuidClass, c.Mode, typeMode, c.Answer, c.Wanted-nW, c.Retries))
+		}
+		if i < 2 {
+			run.Sample(c)
+		}
+	})
+}
+
+// ================================================================ lazily discovering clients
+//
+// Stream "lazy": a FRESH KeepClient per case that has not discovered its
+// services yet - built with New() or as a struct literal, the services coming
+// from a stub API server's keep_services/accessible list (in-process transport,
+// sometimes a real httptest server) or from KeepServiceURIs - performs a lookup
+// of a hinted locator as its very first operation. Judged: usable hints are
+// tried before the rendezvous order on that first lookup, the un-hinted
+// services follow the reference order, and the same lookup repeated on the
+// same client gives the same sequence.
+
+type c12lCase struct {
+	Svcs     []c12Svc `json:"svcs"`
+	Source   string   `json:"source"` // api | api-httptest | uris
+	Ctor     string   `json:"ctor"`   // New | literal
+	Via      string   `json:"via"`    // Get | Ask
+	Hash     string   `json:"hash"`
+	Size     int      `json:"size"`
+	Hints    []string `json:"hints"`
+	Locator  string   `json:"locator"`
+	FirstOp  string   `json:"first_op"` // hinted-lookup | write-then-lookup
+}
+
+type c12RT func(*http.Request) (*http.Response, error)
+
+func (f c12RT) RoundTrip(r *http.Request) (*http.Response, error) { return f(r) }
+
+func c12APIAnswer(path, list string) (int, string) {
+	switch path {
+	case "/arvados/v1/keep_services/accessible":
+		return 200, list
+	case "/discovery/v1/apis/arvados/v1/rest":
+		return 200, `{"defaultCollectionReplication":2}`
+	}
+	return 404, `{"errors":["not found"]}`
+}
+
+func c12Lazy(run *verifkit.Run) {
+	const alnum = "0123456789abcdefghijklmnopqrstuvwxyz"
+	var apiServers []*httptest.Server
+	defer func() {
+		for _, s := range apiServers {
+			s.Close()
+		}
+	}()
+	run.Cases("lazy", run.N(3000, 60000), func(i int, rng *verifkit.Rand) {
+		c := &c12lCase{Source: rng.PickStr("api", "api", "api", "uris", "uris"), Ctor: rng.PickStr("New", "literal"), Via: rng.PickStr("Get", "Get", "Ask"), FirstOp: "hinted-lookup"}
+		if c.Source == "api" && rng.Chance(1, 40) {
+			c.Source = "api-httptest"
+		}
+		if rng.Chance(1, 6) {
+			c.FirstOp = "write-then-lookup"
+		}
+		nsvc := rng.Range(2, 12)
+		used := map[string]bool{}
+		for s := 0; s < nsvc; s++ {
+			u := c12URIUUID(s)
+			if c.Source != "uris" {
+				for {
+					u = rng.String(5, alnum) + "-bi6l4-" + rng.String(15, alnum)
+					if !used[u] {
+						used[u] = true
+						break
+					}
+				}
+			}
+			c.Svcs = append(c.Svcs, c12Svc{UUID: u, Type: rng.PickStr("disk", "disk", "proxy", "gateway:remote")})
+		}
+		c.Hash = rng.Hex(32)
+		c.Size = rng.Range(1, 1<<20)
+		// hints: at least one known gateway in most cases
+		hinted := map[string]bool{}   // url
+		var hintURLs []string
+		url := func(k int) string { return fmt.Sprintf("http://c12l-s%d.invalid:25107", k) }
+		nh := rng.Range(1, 3)
+		for h := 0; h < nh; h++ {
+			switch {
+			case h == 0 && !rng.Chance(1, 8), rng.Chance(1, 3):
+				k := rng.Intn(nsvc)
+				if hinted[url(k)] {
+					continue
+				}
+				hinted[url(k)] = true
+				hintURLs = append(hintURLs, url(k))
+				c.Hints = append(c.Hints, "K@"+c.Svcs[k].UUID)
+			case rng.Bool():
+				cl := rng.String(5, alnum)
+				u := "https://keep." + cl + ".arvadosapi.com"
+				if hinted[u] {
+					continue
+				}
+				hinted[u] = true
+				hintURLs = append(hintURLs, u)
+				c.Hints = append(c.Hints, "K@"+cl)
+			default:
+				c.Hints = append(c.Hints, "K@zzzzz-bi6l4-"+rng.String(15, alnum))
+			}
+		}
+		parts := append([]string(nil), c.Hints...)
+		if rng.Bool() {
+			pos := rng.Intn(len(parts) + 1)
+			parts = append(parts[:pos], append([]string{"A" + rng.Hex(40) + "@" + rng.Hex(8)}, parts[pos:]...)...)
+		}
+		c.Locator = fmt.Sprintf("%s+%d+%s", c.Hash, c.Size, strings.Join(parts, "+"))
+		run.Input(c, false)
+
+		byURL := map[string]string{}
+		var all []string
+		type item struct {
+			UUID string `json:"uuid"`
+			Host string `json:"service_host"`
+			Port int    `json:"service_port"`
+			SSL  bool   `json:"service_ssl_flag"`
+			Type string `json:"service_type"`
+			RO   bool   `json:"read_only"`
+		}
+		var items []item
+		for k, s := range c.Svcs {
+			byURL[url(k)] = s.UUID
+			all = append(all, s.UUID)
+			items = append(items, item{UUID: s.UUID, Host: fmt.Sprintf("c12l-s%d.invalid", k), Port: 25107, Type: s.Type})
+		}
+		lb, _ := json.Marshal(map[string]interface{}{"kind": "arvados#keepServiceList", "items": items})
+		list := string(lb)
+		apiCalls := 0
+		var apiMu sync.Mutex
+
+		arv := &arvadosclient.ArvadosClient{Scheme: "http", ApiToken: "veriftoken"}
+		switch c.Source {
+		case "uris":
+			arv.ApiServer = "c12l-unused.invalid:443"
+			arv.Client = &http.Client{Transport: c12RT(func(r *http.Request) (*http.Response, error) {
+				st, body := c12APIAnswer(r.URL.Path, list)
+				return &http.Response{StatusCode: st, Status: fmt.Sprintf("%d %s", st, http.StatusText(st)), Proto: "HTTP/1.1", ProtoMajor: 1, ProtoMinor: 1, Header: http.Header{"Content-Type": {"application/json"}}, Body: io.NopCloser(strings.NewReader(body)), Request: r}, nil
+			})}
+			for k := range c.Svcs {
+				arv.KeepServiceURIs = append(arv.KeepServiceURIs, url(k))
+			}
+		case "api-httptest":
+			srv := httptest.NewServer(http.HandlerFunc(func(w http.ResponseWriter, r *http.Request) {
+				apiMu.Lock()
+				apiCalls++
+				apiMu.Unlock()
+				st, body := c12APIAnswer(r.URL.Path, list)
+				w.Header().Set("Content-Type", "application/json")
+				w.WriteHeader(st)
+				io.WriteString(w, body)
+			}))
+			apiServers = append(apiServers, srv) // stays up: the discovery cache keeps polling it
+			arv.ApiServer = strings.TrimPrefix(srv.URL, "http://")
+			arv.Client = &http.Client{}
+		default:
+			// the discovery cache is keyed by API host: one host per case
+			arv.ApiServer = fmt.Sprintf("c12l-api-%d-%d-%d.invalid:443", run.Seed(), run.BatchK(), i)
+			arv.Client = &http.Client{Transport: c12RT(func(r *http.Request) (*http.Response, error) {
+				apiMu.Lock()
+				apiCalls++
+				apiMu.Unlock()
+				st, body := c12APIAnswer(r.URL.Path, list)
+				return &http.Response{StatusCode: st, Status: fmt.Sprintf("%d %s", st, http.StatusText(st)), Proto: "HTTP/1.1", ProtoMajor: 1, ProtoMinor: 1, Header: http.Header{"Content-Type": {"application/json"}}, Body: io.NopCloser(strings.NewReader(body)), Request: r}, nil
+			})}
+		}
+		rec := &c12Rec{}
+		rec.answer = func(method, url string) (int, []byte) {
+			if method == "PUT" {
+				return 403, []byte("Forbidden\n")
+			}
+			return 404, []byte("Not found\n")
+		}
+		var kc *KeepClient
+		if c.Ctor == "New" {
+			kc = New(arv)
+		} else {
+			kc = &KeepClient{Arvados: arv, Want_replicas: 2}
+		}
+		kc.Retries = 0
+		kc.HTTPClient = rec
+		kc.RequestID = "c12l"
+
+		bad := func(sig, detail string) {
+			run.Violation(sig, fmt.Sprintf("%s\nlocator %s, services from %s, client built with %s, first operation %s via %s", detail, c.Locator, c.Source, c.Ctor, c.FirstOp, c.Via), c)
+		}
+		lookup := func() []string {
+			rec.take()
+			if c.Via == "Ask" {
+				kc.Ask(c.Locator)
+			} else {
+				r, _, _, _ := kc.Get(c.Locator)
+				if r != nil {
+					r.Close()
+				}
+			}
+			var urls []string
+			for _, s := range rec.take() {
+				urls = append(urls, strings.SplitN(s, " ", 2)[1])
+			}
+			return urls
+		}
+		if c.FirstOp == "write-then-lookup" {
+			kc.PutB([]byte("c12l"))
+			rec.take()
+		}
+		first := lookup()
+		second := lookup()
+
+		judge := func(label string, urls []string) bool {
+			firstSeen := map[string]int{}
+			firstNonHinted := -1
+			var order []string
+			for k, u := range urls {
+				if _, ok := firstSeen[u]; !ok {
+					firstSeen[u] = k
+				}
+				if hinted[u] {
+					continue
+				}
+				id, ok := byURL[u]
+				if !ok {
+					bad("C12:R:request-to-host-outside-service-set", fmt.Sprintf("%s lookup: request to %s; sequence %v", label, u, urls))
+					return false
+				}
+				if firstNonHinted < 0 {
+					firstNonHinted = k
+				}
+				order = append(order, id)
+			}
+			run.Eval(2)
+			for _, hu := range hintURLs {
+				k, ok := firstSeen[hu]
+				if !ok {
+					bad("C12:H1:usable-hint-not-tried:"+label+"-lookup-of-lazy-client", fmt.Sprintf("hinted service %s was never asked; sequence %v", hu, urls))
+					return false
+				}
+				if firstNonHinted >= 0 && k > firstNonHinted {
+					bad("C12:H1:hint-tried-after-rendezvous-order:"+label+"-lookup-of-lazy-client", fmt.Sprintf("hinted service %s was first asked at position %d, after an un-hinted service at position %d; hints %v; sequence %v", hu, k, firstNonHinted, c.Hints, urls))
+					return false
+				}
+			}
+			var unh []string
+			for k, u := range all {
+				if !hinted[url(k)] {
+					unh = append(unh, u)
+				}
+			}
+			if sig, d := c12JudgeOrder(c.Hash, order, unh); sig != "" {
+				bad("C12:R:read-order-"+sig+":"+label+"-lookup-of-lazy-client", d)
+				return false
+			}
+			return true
+		}
+		if len(first) == 0 {
+			run.Inconclusive(fmt.Sprintf("C12 lazy: the first lookup produced no request (service discovery failed?) source=%s", c.Source))
+			return
+		}
+		if !judge("first", first) || !judge("second", second) {
+			return
+		}
+		run.Eval(1)
+		same := len(first) == len(second)
+		for k := 0; same && k < len(first); k++ {
+			if first[k] != second[k] {
+				a, oka := c12Weight(c.Hash, byURL[first[k]])
+				b, okb := c12Weight(c.Hash, byURL[second[k]])
+				same = oka && okb && a == b
+			}
+		}
+		if !same {
+			bad("C12:D:same-lookup-twice-on-one-client-differs", fmt.Sprintf("first %v, second %v", first, second))
+			return
+		}
+		run.Count("lazy_clients", 1)
+		run.Count("lazy_clients_"+c.Source, 1)
+		run.Count("lazy_first_op_"+c.FirstOp, 1)
+		if c.Source != "uris" {
+			apiMu.Lock()
+			if apiCalls == 0 {
+				run.Count("lazy_api_never_called", 1)
+			} else {
+				run.Count("lazy_api_keep_services_fetches_observed", 1)
+			}
+			apiMu.Unlock()
+		}
+		kinds := map[string]bool{}
+		for _, h := range c.Hints {
+			switch len(h) {
+			case 7:
+				kinds["cluster"] = true
+			default:
+				if hinted[func() string {
+					for k, s := range c.Svcs {
+						if "K@"+s.UUID == h {
+							return url(k)
+						}
+					}
+					return ""
+				}()] {
+					kinds["gateway"] = true
+				} else {
+					kinds["unknown-gateway"] = true
+				}
+			}
+		}
+		var kl []string
+		for k := range kinds {
+			kl = append(kl, k)
+			run.Count("lazy_hint_"+k, 1)
+		}
+		sort.Strings(kl)
+		run.Feature(fmt.Sprintf("lazy,%s,%s,%s,%s,hints=%s,n%d", c.Source, c.Ctor, c.Via, c.FirstOp, strings.Join(kl, "+"), (nsvc+3)/4))
+		if i < 2 {
 			run.Sample(c)
 		}
 	})
